@@ -207,6 +207,11 @@ class Statement(object):
         rel_index = self.code_pkg.additional.int
         if self.operand.left.is_address_expression():
             rel_index = self.operand.left.extract_address_index_from_expression()
+            # A constant added to or subtracted from the label may move the target further away
+            expression = self.operand.left
+            constant = expression.left.int if expression.left.is_numeric() else expression.right.int
+            max_size += constant
+            min_size += constant
 
         range_count = range(this_index, rel_index)
         if rel_index < this_index:
